@@ -130,6 +130,18 @@ func c12(e *Env) {
 			n.Prepared[fmt.Sprintf("%x", pr.PreparedQueryId)] = "x"
 		}
 	}
+	// Some of the clients that prepared the statements leave before anything is executed (drivers
+	// prepare on one connection and execute on any; a connection that closes takes nothing with it)
+	if len(f.clients) > 1 && c.Choose("preparers-leave", 3) == 2 {
+		keep := c.Choose("keepwho", len(f.clients))
+		for i, cl := range f.clients {
+			if i != keep && c.Choose("leaves", 2) == 1 {
+				cl.Disconnect()
+				e.Res.Stats["probe.c12.preparing_client_left"]++
+			}
+		}
+		w.RunUntil(func() bool { return false }, time.Second)
+	}
 	type rec struct {
 		req *world.ClientReq
 		g   world.GenReq
